@@ -40,9 +40,25 @@ func main() {
 	list := flag.Bool("list", false, "list registered properties")
 	sym := flag.String("sym", "", "developer aid: print the abstract interpretation of pkg:Func or pkg:Type.Method")
 	symW := flag.String("symworkers", "", "developer aid: print worker-closure facts of pkg:Func")
+	symM := flag.String("symmeta", "", "developer aid: summarise a parser pkg:Func(reader)")
+	symForks := flag.Int("symforks", 2, "with -symmeta: iteration bound")
 	symFail := flag.Bool("symfail", false, "with -sym: explore read-failure outcomes")
 	flag.Parse()
 
+	if *symM == "pngchain" {
+		p, _ := Load(*repo, "")
+		debugPngChain(p)
+		return
+	}
+	if *symM != "" {
+		p, err := Load(*repo, "")
+		if err != nil {
+			fmt.Println(err)
+			os.Exit(2)
+		}
+		debugMeta(p, *symM, *symForks)
+		return
+	}
 	if *symW != "" {
 		p, err := Load(*repo, "")
 		if err != nil {
